@@ -1,7 +1,11 @@
 //! vcheck — model-checking harness for rust-vmm/acpi_tables (see /verif/DESIGN.md).
 mod ev;
+mod fill;
 mod props;
+mod replay;
+mod seq;
 mod sr;
+mod tables;
 mod util;
 
 use ev::{Ctx, Tier};
@@ -21,8 +25,7 @@ fn main() {
         std::panic::set_hook(Box::new(|_| {}));
     }
     if args[1] == "replay" {
-        eprintln!("replay not built yet");
-        std::process::exit(2);
+        std::process::exit(replay::run(&args[2]));
     }
     let tier = match args[2].as_str() {
         "quick" => Tier::Quick,
@@ -36,6 +39,12 @@ fn main() {
         "C17" => {
             props::c17::run(ctx);
             ctx.finish(props::c17::RULE, props::c17::ASSUME)
+        }
+        "C01" | "C02" | "C03" | "C04T" | "C05" => {
+            use props::tseq::P;
+            let p = match args[1].as_str() { "C01" => P::C01, "C02" => P::C02, "C03" => P::C03, "C04T" => P::C04, _ => P::C05 };
+            props::tseq::run(ctx, p);
+            ctx.finish(props::tseq::rule(p), props::tseq::ASSUME)
         }
         _ => {
             eprintln!("unknown property {}", args[1]);
